@@ -77,6 +77,16 @@ class C18(Prop):
             out.append(self._inv(mode, tl, it, dict(
                 features=('single', 'named' if named else 'tuple', ft.name, 'style%d' % style, 'traits%d' % ti, mode),
                 ft=ft.name, named=named, traits=[t for t, _ in tl], fname=names[0], nfields=1)))
+        # packed layouts whose single field stays aligned under the packing (a reference to it is legal)
+        for (ftn, rp), named, (ti, tl), mode in itertools.product(
+                (('u8', 'repr ( packed )'), ('u8', 'repr ( C , packed )'), ('ParenU8', 'repr ( packed )'), ('u8', 'repr ( packed ( 2 ) )'),
+                 ('BoxSlice', 'repr ( align ( 16 ) )')),
+                [False, True], enumerate(trait_lists[:3]), ['attr', 'derive']):
+            ft = FT_BY_NAME[ftn]
+            it, names = mk_struct([ft], named, 3 if 'N' in ft.needs else 0, vis_i=ti, extra_attrs=[sx.a_other(rp)])
+            out.append(self._inv(mode, tl, it, dict(
+                features=('single', 'layout:' + rp.replace(' ', ''), 'named' if named else 'tuple', ft.name, 'traits%d' % ti, mode),
+                ft=ft.name, named=named, traits=[t for t, _ in tl], fname=names[0], nfields=1)))
         # rejection: 0, 2, 3, 4 fields
         for n, named, (ti, tl), mode in itertools.product([0, 2, 3, 4], [False, True], enumerate(trait_lists[:3]),
                                                           ['attr', 'derive']):
